@@ -500,7 +500,7 @@ def rule_h(ck, R):
         ck.verdict(bad is None, 'C08.h', 'send_resp_0', R.where('send_resp_0'), 'no payload, block size 0, code in the meta field, sequence/address echoed' if bad is None else bad)
     # send_early_response: the request header is parsed from the fallback buffer; a response echoing it may only be
     # built when that parse succeeded, header faults are answered with the matching META frame
-    engE = R.engine(set())
+    engE = R.engine({'regp_is_read_request', 'regp_is_write_request', 'regp_is_request'})
     ps = R.paths('send_early_response', 'C08.h', engE)
     if ps is not None:
         bad = None
@@ -513,6 +513,16 @@ def rule_h(ck, R):
             r = ph[0].result
             rs = [e for e in p.calls() if e.name in ('send_resp_0', 'send_resp_32')]
             mt = p.calls('regp_resp_meta')
+            if any(c[0] == 'cmp' and c[1] == '==' and c[2][0] == '&' and c[3] == C(0) for c in p.cond_terms()):
+                continue                # the address of an object is never null: no such execution
+            tconds = [c for c in p.cond_terms() if c[0] == 'cmp' and 'header.type' in fmt(c[2]) and sym.is_c(c[3])]
+            is_req = any(c[1] == '==' and c[3][1] in (E['RP_FRAME_READ_REQUEST'], E['RP_FRAME_WRITE_REQUEST']) for c in tconds)
+            not_req = {c[3][1] for c in tconds if c[1] == '!='} >= {E['RP_FRAME_READ_REQUEST'], E['RP_FRAME_WRITE_REQUEST']}
+            if rs and not is_req:
+                bad = bad or ('%s answers the parsed frame under {%s} without having established that it is a request: a response or meta message that '
+                              'meets an early fault (no buffer, frame too large) is answered - the document forbids that ("shall not be met with another '
+                              'response"), and req2resp turns the reply into a META frame with a response code no receiver accepts'
+                              % (rs[0].name, '; '.join(fmt(c) for c in p.cond_terms())[:200]))
             if rs:
                 kinds.add(rs[0].name)
                 if engE.feasible(p.cond_terms() + [('cmp', '<', r, C(0))]):
@@ -533,6 +543,9 @@ def rule_h(ck, R):
                         want = {-74: E['RP_META_EHEADERENC'], -84: E['RP_META_EHEADERCRC']}.get(c[3][1])
                 if want is None or mt[0].args[1] != C(want):
                     bad = bad or 'META code %s sent under {%s}' % (fmt(mt[0].args[1]), '; '.join(fmt(c) for c in p.cond_terms() if sym.contains(c, r)))
+            elif not_req and not engE.feasible(p.cond_terms() + [('cmp', '<', r, C(0))]):
+                if p.ret != C(0):
+                    bad = bad or 'a frame that is no request is left unanswered but the result is %s, expected 0' % fmt(p.ret)
             elif strip_cast(p.ret) != r:
                 bad = bad or 'a path sends nothing and does not return the parse result'
         if kinds != {'send_resp_0', 'send_resp_32', 'meta'}:
